@@ -75,7 +75,7 @@ def autodecoder_obligations(eng):
         return st.new_obj(A, {F: prev})
     wit = lambda m: {"prev": None if z3.is_true(m.eval(isn, model_completion=True)) else m.eval(pv, model_completion=True).as_long(),
                      "outcomes": [m.eval(OUT[k], model_completion=True).as_long() for k in range(N)], "outcome_readout": m.eval(OUT_R, model_completion=True).as_long(),
-                     "empty": [z3.is_true(m.eval(EMPTY(DV[k]), model_completion=True)) for k in range(N)]}
+                     "empty": [z3.is_true(m.eval(EMPTY(DV[k]), model_completion=True)) for k in range(N)], "empty_readout": z3.is_true(m.eval(EMPTY(DV_R), model_completion=True))}
     # __init__
     def init_init(e):
         st = State(); yield st, [st.new_obj(A, {})]
